@@ -85,13 +85,17 @@ def run(ctx):
     rc = ctx.rule('R24.c', 'compiler-side limit check and exit-status plumbing', 8)
     rd = ctx.rule('R24.d', 'no clock / random / pid / pointer value reaches the generated code', 1)
     progs = g.programs(ctx.tier)
-    res = g.scan(progs, q_C24)
+    res = g.scan(progs, q_C24, tolerate_parse_errors=True)
     gc.apply_records(ctx, {'R24.a': ra}, res)
     for p, r in res:
         loc = gc.ploc(p)
         if p.expect_fail:
             rb.expect(p.rc not in (0, None), 'reject:%s' % p.name, loc, 'over-limit program %s is accepted: ptgpp exits 0 and the emitted C passes the front end' % p.name,
                       note='%s rejected by %s' % (p.name, 'the emitted #error guard' if p.rc == -2 else 'parsec-ptgpp (exit %s)' % p.rc))
+        elif p.rc == -3:
+            rb.bad('accept:%s:%s' % (p.name, p.dep), loc, 'parsec-ptgpp accepts %s (exit 0) but the C it emits does not pass the front end: %s' % (p.label(), p.err[-300:].replace('\n', ' ')))
+        elif getattr(p, 'variant', False) and p.rc not in (0, None):
+            rb.ok(loc, '%s: back-end variant rejected by parsec-ptgpp with exit %s' % (p.label(), p.rc))
         else:
             rb.expect(r is not None and not p.rc, 'accept:%s:%s' % (p.name, p.dep), loc, 'program %s of the build is rejected by ptgpp (exit %s): %s' % (p.name, p.rc, p.err[-200:]),
                       note='%s accepted, emitted C parses' % p.label())
